@@ -147,6 +147,8 @@ def gen_body(rng, kind='body'):
             c['conf'] = rng.choice(['ctor', 'ctor', 'setup', 'setup', 'setup_over', 'kw', 'kw_split', 'kw_setup', 'kw_only'])
         if rng.random() < 0.3:
             c['pre'] = [rng.choice(['body_first', 'copy_after', 'second']) for _ in range(rng.randrange(1, 3))]
+        if c['via'] != 'request' and rng.random() < 0.3:
+            c['hkind'] = rng.choice(['ret_body', 'gen', 'hook_gen'])
         if kind == 'text' and ctype == 'json' and via == 'forms' and rng.random() < 0.5:
             c['inner'] = 'forms_json'           # JSON through Request.forms / POST instead of Request.json
     return c
@@ -181,13 +183,18 @@ def gen_budget(rng):
         is_file = rng.random() < 0.35
         size = rng.choice([0, 1, 5, 20, buf // 2, buf, rng.randrange(0, 3 * buf)]) if not is_file else \
             rng.choice([0, 10, buf, 3 * buf, 10 * buf])
-        parts.append(dict(name='n%d' % (i if rng.random() < 0.7 else rng.randrange(2)),
-                          filename=('f%d.bin' % i) if is_file else None, size=size,
+        fname = ('f%d.bin' % i) if is_file else None
+        if is_file and rng.random() < 0.3:
+            fname = ''                          # a file input left empty is sent as filename="" (finding F10): a FILE for
+            size = rng.choice([0, 7, buf, 4 * buf, 100 * buf])   # the budget — its content must never become form text
+        parts.append(dict(name='n%d' % (i if rng.random() < 0.7 else rng.randrange(2)), filename=fname, size=size,
                           pad=rng.choice([0, 0, 0, 3, 30])))
     c = dict(kind='budget', parts=parts, buf=buf, via=rng.choice(['iter_items', 'iter_items', 'wsgi']))
     if c['via'] == 'wsgi':
         c['conf'] = rng.choice(['ctor', 'setup', 'setup_over', 'kw', 'kw_split', 'kw_setup'])
         c['sched'] = rng.choice([[], [0, 3, 1] * 40, [6] * 200])      # the multipart body itself arrives fragmented
+        if rng.random() < 0.25:
+            c['hkind'] = rng.choice(['gen', 'hook_gen'])
     # steer half of the cases to the edge: threshold = exact need + {-1, 0, +1}
     if rng.random() < 0.5:
         _, triples = build_multipart(parts)
@@ -318,6 +325,23 @@ def corpus():
     for via in ('iter_items', 'wsgi'):
         out.append(dict(kind='budget', parts=big_file, buf=200, via=via))
         out.append(dict(kind='budget', parts=big_file, buf=150, via=via))
+    # round 8: the stored body is used AFTER _handle returned (returned as the response, read inside a generator, read by a
+    # before_request hook and again by the generator) — on both sides of max_memfile_size
+    for hk in ('ret_body', 'gen', 'hook_gen'):
+        for size in (7, 8, 9, 26):
+            out.append(dict(_body(d[:size], size, 8, None, via='wsgi'), hkind=hk))
+            out.append(dict(_body(d[:size], size, 8, 30, via='wsgi', sched=[2] * 30), hkind=hk))
+        out.append(dict(_body(d[:26], 26, 8, 20, via='wsgi'), hkind=hk))
+        enc_ = b'1a\r\n' + d[:26] + b'\r\n0\r\n\r\n'
+        out.append(dict(_body(enc_, -1, 8, None, chunked=True, via='wsgi', payload_len=26, layout=[[0, 4, 30]]), hkind=hk))
+    for hk in ('gen', 'hook_gen'):
+        out.append(dict(_body((b'k=' + b'v' * 9)[:8], 8, 8, None, via='forms', kind='text', ctype='urlencoded'), hkind=hk))
+        out.append(dict(kind='budget', parts=big_file, buf=200, via='wsgi', hkind=hk))
+    # round 8: a part with filename="" (finding F10's shape) and a large content: a file for the budget, never form text
+    for size_ in (0, 300, 100 * 1024):
+        empty_fn = [dict(name='a', filename=None, size=5, pad=0), dict(name='u', filename='', size=size_, pad=0)]
+        for via in ('iter_items', 'wsgi'):
+            out.append(dict(kind='budget', parts=empty_fn, buf=256, via=via))
     # round 7: a configuration built from a source mapping plus keyword fall-backs (DefaultConfig(src, **kw))
     for conf in ('kw', 'kw_split', 'kw_setup', 'kw_only'):
         out.append(dict(_body(d[:10], 10, 4, 5, via='wsgi'), conf=conf))
@@ -477,6 +501,8 @@ def access(rq, case, seen):
             f = rq.forms
             files = rq.files
         seen['n'] = count_items(f) + count_items(files)
+        seen['text_chars'] = sum(len(x) for v in f.values() for x in (v if isinstance(v, list) else [v])
+                                 if isinstance(x, (str, bytes)))
         lens, types = [], set()
         for v in files.values():
             for fu in (v if isinstance(v, list) else [v]):
@@ -529,7 +555,26 @@ def app_with_handler(conf, buf, maxb):
     holder = {}
 
     def handler():
-        return access(app.request, holder['case'], holder['seen'])
+        case, seen = holder['case'], holder['seen']
+        hk = case.get('hkind')
+        if hk == 'ret_body' and case['kind'] == 'body':
+            # the handler hands the stored body itself to the framework: it is read AFTER _handle returned
+            b = app.request.body
+            seen['spilled'] = not isinstance(b, BytesIO)
+            return b
+        if hk in ('gen', 'hook_gen'):
+            def lazily():                       # a generator handler: the body / form is used while the response
+                yield access(app.request, case, seen)     # is being iterated
+            return lazily()
+        return access(app.request, case, seen)
+
+    def before():
+        if holder.get('case', {}).get('hkind') == 'hook_gen':
+            try:
+                app.request.body.read()         # a before_request hook that has already read the body
+            except Exception:
+                pass
+    app.add_hook('before_request', before)
     app.route('/b', method='POST', callback=handler)
     return app, holder
 
@@ -560,7 +605,8 @@ def finish(case, st, code, content, seen, errs):
     if case['kind'] == 'body':
         return dict(status='ok', body=list(content), spilled=seen['spilled'], reqs=st.log, pos=st.pos)
     if case['kind'] == 'budget':
-        return dict(status='ok', n=seen.get('n'), file_types=seen.get('file_types'), file_lens=seen.get('file_lens'))
+        return dict(status='ok', n=seen.get('n'), file_types=seen.get('file_types'), file_lens=seen.get('file_lens'),
+                    text_chars=seen.get('text_chars'))
     if case['via'] == 'gbs' or case.get('inner') == 'gbs':
         return dict(status='ok', text=list(content), pos=st.pos)
     return dict(status='ok', parsed_len=seen.get('len'), pos=st.pos)
@@ -780,9 +826,13 @@ def oracle(case, obs):
             return '%s of %d parts delivered' % (obs.get('n'), len(case['parts']))
         if obs.get('file_types') not in (None, [], ['BytesIOProxy']):
             return 'file part held as %s' % obs['file_types']
-        want = sorted(p['size'] for p in case['parts'] if p['filename'] is not None)
+        want = sorted(p['size'] for p in case['parts'] if p['filename'])
         if obs.get('file_lens') is not None and obs['file_lens'] != want:
             return 'uploads read block-wise have %s bytes, submitted %s' % (obs['file_lens'], want)
+        text = sum(p['size'] for p in case['parts'] if p['filename'] is None)
+        if obs.get('text_chars') is not None and obs['text_chars'] != text:
+            return 'the form holds %d characters of text in memory, the text fields submitted are %d bytes (max_memfile_size=%d)' % (
+                obs['text_chars'], text, case['buf'])
         return None
 
     buf, maxb, size = case['buf'], case['maxb'], case['payload_len']
@@ -933,6 +983,10 @@ API_SURFACE = [
     ('BaseRequest._raise, errors_map present / absent', 'covered by conf ctor/setup/setup_over/default and via=request with '
                                                         'DefaultConfig vs plain dict (C13_unmapped_errors_escape)'),
     ('Ombott.__init__ / setup', 'covered by conf'),
+    ('the stored body after _handle returned', 'covered by hkind ret_body (returned as the response), gen (read while the response '
+                                               'is iterated), hook_gen (before_request hook + generator) on both sides of max_memfile_size'),
+    ('multipart part with filename=""', 'covered by budget cases (file for the budget whatever its size; the form must not hold its '
+                                        'content as text); that it is delivered as None is finding F10 (C07)'),
     ('DefaultConfig(src, **kw) / SimpleConfig.get_from: source mapping + keyword fall-backs', 'covered by conf kw / kw_split / '
                                                                                                'kw_setup / kw_only and rconf default_config_kw'),
     ('config max_body_size None / 0 / n, max_memfile_size', 'covered (sizes at limit-1, limit, limit+1, limit+buf, 10x)'),
